@@ -347,6 +347,17 @@ class Kernel:
         for m, name, val in patches:
             saved.append((m, name, getattr(m, name, _MISSING)))
             setattr(m, name, val)
+        # generic isolation of module-level state between paths: every global binding of the psutil modules is restored afterwards
+        # (also names the tree did not have when this framework was written: a module-level cache added by a change under test), and
+        # plain containers are replaced by copies for the duration so that in-place mutation cannot leak into the next path either
+        snapshot = []
+        for m in MODS:
+            d = vars(m)
+            before = dict(d)
+            for name, val in list(d.items()):
+                if not name.startswith("__") and type(val) in (dict, list, set) and not any(m is pm and name == pn for pm, pn, _ in patches):
+                    d[name] = type(val)(val)
+            snapshot.append((m, before))
         if getattr(k.ctx, "symbolic", False):
             k.shadows.install(*MODS)
         self._clear_caches(_common, _pslinux, _psposix)
@@ -361,6 +372,13 @@ class Kernel:
                         delattr(m, name)
                 else:
                     setattr(m, name, old)
+            for m, before in snapshot:
+                d = vars(m)
+                for name in [n for n in d if n not in before]:
+                    del d[name]
+                for name, val in before.items():
+                    if d.get(name, _MISSING) is not val:
+                        d[name] = val
             self._clear_caches(_common, _pslinux, _psposix)
 
     @staticmethod
